@@ -3,7 +3,8 @@
 From Coq Require Import Extraction ExtrOcamlBasic.
 From Coq Require Import List NArith String.
 From JV.lib Require Import Bytes Paths.
-From JV.gen Require Import IncludeName TagName DirectiveTables.
+From JV.gen Require Import IncludeName TagName DirectiveTables ScannerTable.
+From JV.model Require Import ScannerSem TagTitle.
 
 Extraction Language OCaml.
 Extraction "Model.ml"
@@ -11,4 +12,6 @@ Extraction "Model.ml"
   Bytes.join_byte Bytes.trim Bytes.trim_left Bytes.trim_right
   Paths.clean Paths.join2 Paths.dir
   IncludeName.validateIncludeFileName TagName.tagName
+  TagTitle.pathTagTitle
+  ScannerSem.scan ScannerTable.lexkind_idx ScannerTable.state_idx ScannerTable.state_name
   DirectiveTables.all_kinds DirectiveTables.kind_idx DirectiveTables.kind_keyword DirectiveTables.root_allowed_list DirectiveTables.http_method_list DirectiveTables.context_table DirectiveTables.adder_kinds DirectiveTables.response_code_lo DirectiveTables.response_code_hi.
